@@ -271,6 +271,14 @@ def stepHeight (cfg : Cfg) (o : Oracle) (height now : Int) (s : WState) : WState
       let r := handleConfirmed cfg conf
       ({ s with pending := pend, enabled := en, alive := s.alive && !r.2 }, r.1)
 
+/-- `_fetchHeight` (one enabled tick) followed by the event loop's `case height := <-heightC`: the height the node
+just reported (`latest`; `none` = API error, which ends the watcher) is passed on unchanged — it may be lower than
+an earlier one (reorg, resync, lagging node). -/
+def stepPolled (cfg : Cfg) (o : Oracle) (latest : Option Int) (now : Int) (s : WState) : WState × List (Unconf × Header) :=
+  match latest with
+  | none => ({ s with alive := false }, [])
+  | some height => stepHeight cfg o height now s
+
 /-! ## the count-then-pages fetch loop (watcher.go:214-256, repaired exit test) -/
 
 structure Page where
